@@ -5,7 +5,7 @@ import ast
 
 from ..cfg import CFG
 from ..effects import Effects, expr_path
-from ..identity import Ident, has_base, show
+from ..identity import Ident, has_base, show, alternatives
 from ..loops import dotted
 from ..repo import Repo, loc, short, AnalysisError, bind_call, positional_params, param_names
 from ..resolve import Resolver
@@ -14,11 +14,14 @@ EXPLANATION = (
     "Write-effect summaries are computed bottom-up over the resolved call graph: a module-valued parameter is written only by "
     "<optimizer>.update(m, g), nnx.update(m, s) or by being passed at a written position of a callee (aliases through partial / "
     "jit / cached_partial / nnx.scan bodies are folded). R1 pairs every value_and_grad site with the optimizer update that "
-    "consumes its gradient: the argument at `argnums` and the first argument of update() are the same object, also when the "
-    "gradient is returned to a caller. R2 compares each routine's effect set with its documented trainee set and checks at every "
-    "call site in a training loop that optimizer and module belong together (pairs created in create_*_state). R3 requires loss "
-    "functions, policy-head methods and action samplers to have an empty effect set. R4 requires the update to be reached on "
-    "every normal path (given its loop executes)."
+    "consumes its gradient (reaching definitions, plain copies followed): the argument at `argnums` and the first argument of update() "
+    "have the same object identity (parameters, their attributes, clones, constructor fields, local aliases), also when the "
+    "gradient is returned to a caller; a violation needs two known, different objects. R2 compares each routine's effect set with its "
+    "documented trainee set and checks at every call site in a training loop (and at updates inlined into the loop) that optimizer and "
+    "module belong together (pairs created in create_*_state, named by the fields of the returned record). R3 requires loss "
+    "functions, policy-head methods and action samplers to have an empty effect set. R4 requires that the gradient is read at all and "
+    "that no feasible normal path from the gradient computation to the exit avoids the update (path witness). Values the analysis "
+    "does not read (a transformed gradient, a module handed to unsummarised code, merged definitions) make the rule group undecided."
 )
 TRUSTED = [
     "flax nnx: value_and_grad(f, argnums=k) differentiates w.r.t. the k-th positional argument; Optimizer.update(model, grads) changes exactly "
@@ -154,11 +157,16 @@ def grad_sites(repo: Repo, fn, mi):
         kw = {k.arg: k.value for k in tcall.keywords}
         argnums = kw.get("argnums", tcall.args[1] if len(tcall.args) > 1 else ast.Constant(0))
         try:
-            an = ast.literal_eval(argnums)
+            an = ast.literal_eval(_literal_of(mi, fn, argnums))
         except Exception:
             raise AnalysisError(f"{getattr(fn, '_qual', fn.name)}: non-literal argnums `{short(argnums)}` (unrecognised idiom)")
+        if not (isinstance(an, int) and not isinstance(an, bool) and an >= 0) and not (isinstance(an, (tuple, list)) and all(isinstance(x, int) and not isinstance(x, bool) and x >= 0 for x in an)):
+            raise AnalysisError(f"{getattr(fn, '_qual', fn.name)}: argnums `{short(argnums)}` is not a position or a tuple of positions (unrecognised idiom)")
         nums = list(an) if isinstance(an, (tuple, list)) else [an]
-        has_aux = bool(ast.literal_eval(kw["has_aux"])) if "has_aux" in kw else False
+        try:
+            has_aux = bool(ast.literal_eval(_literal_of(mi, fn, kw["has_aux"]))) if "has_aux" in kw else False
+        except Exception:
+            raise AnalysisError(f"{getattr(fn, '_qual', fn.name)}: non-literal has_aux `{short(kw['has_aux'])}` (unrecognised idiom)")
         loss = tcall.args[0] if tcall.args else kw.get("f")
         diff = []
         for k in nums:
@@ -170,6 +178,16 @@ def grad_sites(repo: Repo, fn, mi):
                 "value_and": kind.endswith("value_and_grad")}
         out.append(_through_wrapper(repo, fn, mi, site))
     return out
+
+
+def _literal_of(mi, fn, e):
+    """The expression itself, or the literal a module-level constant is bound to (`_ARGNUMS = 2` ... `argnums=_ARGNUMS`)."""
+    if isinstance(e, ast.Name) and isinstance(mi.defs.get(e.id), (ast.Assign, ast.AnnAssign)) and mi.defs[e.id].value is not None \
+            and not any(isinstance(x, ast.arg) and x.arg == e.id for x in ast.walk(fn)):
+        n_stores = sum(1 for x in ast.walk(mi.tree) if isinstance(x, ast.Name) and x.id == e.id and isinstance(x.ctx, (ast.Store, ast.Del)))
+        if n_stores == 1:
+            return mi.defs[e.id].value
+    return e
 
 
 def _through_wrapper(repo, fn, mi, site):
@@ -251,7 +269,7 @@ def _stmt_of(node):
 
 def _grad_targets(site, stmt):
     """Names that receive the gradient(s) when ``stmt`` consumes the application call; 'return' if returned."""
-    app = site["app"]
+    app = getattr(site["app"], "_original", site["app"])  # a site rewritten through its wrapper stands for the application that is in the tree
     if isinstance(stmt, ast.Return) and stmt.value is app:
         return "return", None
     if isinstance(stmt, ast.Assign) and stmt.value is app and len(stmt.targets) == 1:
@@ -266,6 +284,8 @@ def _grad_targets(site, stmt):
         if site["tuple"]:
             if isinstance(g, ast.Tuple) and len(g.elts) == len(site["argnums"]) and all(isinstance(x, ast.Name) for x in g.elts):
                 return "names", [x.id for x in g.elts]
+            if isinstance(g, ast.Name):
+                return "tuple-name", [g.id]  # `loss, grads = ...; g_a, g_b = grads`: the element names are looked up by the caller
             return None, None
         if isinstance(g, ast.Name):
             return "names", [g.id]
@@ -281,43 +301,112 @@ def _enclosing_fn(node, top):
     return top
 
 
-def _updates_using(res, fn, gname, site_stmt):
-    """`X.update(m, g)` calls whose gradient argument `g` is (by reaching definitions) the one assigned at site_stmt."""
+def _gradient_uses(res, fn, gname, site_stmt):
+    """What happens to the gradient that ``site_stmt`` binds to ``gname``, by reaching definitions: (`X.update(m, g)` calls that apply it,
+    other statements that read it).  Plain copies `h = g` are followed."""
     scope = _enclosing_fn(site_stmt, fn)
     cfg = res.cfg_of(scope)
     try:
         snode = cfg.node_of(site_stmt).id
     except KeyError:
         snode = None
-    out = []
-    for n in ast.walk(scope):
-        if isinstance(n, ast.Call) and isinstance(n.func, ast.Attribute) and n.func.attr == "update" and len(n.args) == 2 and isinstance(n.args[1], ast.Name) and n.args[1].id == gname:
-            if _enclosing_fn(n, fn) is not scope:
+    tracked = {(snode, gname)}
+    while True:
+        ups, other, more = [], [], set()
+        for node in cfg.nodes:
+            if node.ast is None or node.kind in ("entry", "exit"):
                 continue
-            try:
-                un = cfg.node_of(n).id
-            except KeyError:
+            held = {nm for dn, nm in tracked if nm in node.uses and (dn is None or any(d.node == dn for d in cfg.defs_of(node.id, nm)))}
+            if not held:
                 continue
-            if snode is None or any(d.node == snode for d in cfg.defs_of(un, gname)):
-                out.append(n)
-    return out
+            s = node.ast
+            if node.kind != "stmt":
+                other.append(s)
+                continue
+            if isinstance(s, ast.Assign) and len(s.targets) == 1 and isinstance(s.targets[0], ast.Name) and isinstance(s.value, ast.Name) and s.value.id in held:
+                more.add((node.id, s.targets[0].id))
+                continue
+            found = [c for c in ast.walk(s) if isinstance(c, ast.Call) and isinstance(c.func, ast.Attribute) and c.func.attr == "update" and len(c.args) == 2
+                     and not any(isinstance(a, ast.Starred) for a in c.args) and isinstance(c.args[1], ast.Name) and c.args[1].id in held]
+            if found:
+                ups += found
+            else:
+                other.append(s)
+        if more <= tracked:
+            return ups, other
+        tracked |= more
 
 
-def _same_obj(res, fn, a: ast.AST, a_at: ast.AST, b: ast.AST, b_at: ast.AST) -> bool:
-    """Same attribute path on the same root variable with identical reaching definitions at both program points."""
-    pa, pb = expr_path(a), expr_path(b)
-    if pa is None or pa != pb:
+def _skipping_path(cfg, a, upd_nodes):
+    """A feasible path from the gradient computation (node ``a``) to the normal exit that passes none of the updates (path witness), or None.
+    Exception handlers are not followed (R4 is about normal paths); the branch conditions the gradient computation itself is under are assumed."""
+    avoid = set(upd_nodes) | {n.id for n in cfg.nodes if isinstance(n.ast, ast.ExceptHandler)}
+    assume = {}
+    rd = cfg.reaching()
+    for b, lab in cfg.control_deps(a):
+        t = cfg.nodes[b].ast
+        if isinstance(t, ast.If):
+            names = {x.id for x in ast.walk(t.test) if isinstance(x, ast.Name)}
+            if all(rd[b].get(nm) == rd[a].get(nm) for nm in names):
+                for k, v in cfg._lits(t.test, lab, b):
+                    assume[k] = v
+    return cfg.paths_avoiding(a, cfg.exit, avoid, feasible=True, assume=assume)
+
+
+_DISTINCT_KINDS = ("param", "clone", "obj", "param|clone")
+
+
+def _known_ident(i) -> bool:
+    """Built only from parameters, fresh clones / constructor results, their attributes / constant items and alternatives of those: two such
+    identities that differ denote different objects (trusted base: distinct parameters are distinct objects)."""
+    if not isinstance(i, tuple) or not i:
         return False
+    if i[0] in _DISTINCT_KINDS:
+        return True
+    if i[0] == "attr":
+        return _known_ident(i[1])
+    if i[0] == "alt":
+        return all(_known_ident(m) for m in i[1])
+    return False
+
+
+def _obj_id(idn, e, mi, cfg, at, qual, depth=0):
+    """Ident.of, plus constant items of a known object (`args[0]`, also through one plain assignment `q = args[0]`)."""
+    if isinstance(e, ast.Subscript) and isinstance(e.slice, ast.Constant) and depth < 6:
+        return ("attr", _obj_id(idn, e.value, mi, cfg, at, qual, depth + 1), f"[{e.slice.value!r}]")
+    if isinstance(e, ast.Name) and depth < 6:
+        defs = cfg.defs_of(at, e.id)
+        if len(defs) == 1 and defs[0].kind == "assign" and isinstance(defs[0].value, ast.Subscript):
+            return _obj_id(idn, defs[0].value, mi, cfg, defs[0].node, qual, depth + 1)
+    return idn.of(e, mi, cfg, at, qual)
+
+
+def _mentions(i, kinds) -> bool:
+    """Does the identity (or a part of it: attribute base, alternative) have one of the ``kinds``?"""
+    return isinstance(i, tuple) and bool(i) and ((isinstance(i[0], str) and i[0] in kinds) or any(_mentions(x, kinds) for x in i if isinstance(x, tuple)))
+
+
+def _cmp_ident(a, b) -> str:
+    """'same' | 'different' (both are known objects and they are not the same one) | 'unknown'."""
+    if a == b and not _mentions(a, ("deep", "expr")):
+        return "same"
+    if _known_ident(a) and _known_ident(b):
+        return "unknown" if set(alternatives(a)) & set(alternatives(b)) else "different"
+    return "unknown"
+
+
+def _same_obj(res, idn, fn, qual, a: ast.AST, a_at: ast.AST, b: ast.AST, b_at: ast.AST):
+    """Do the expressions ``a`` (at statement a_at) and ``b`` (at b_at) denote the same object?  (verdict of _cmp_ident, shown identities)"""
     scope = _enclosing_fn(a_at, fn)
     if _enclosing_fn(b_at, fn) is not scope:
-        return True
+        return "unknown", "?", "?"
     cfg = res.cfg_of(scope)
     try:
         na, nb = cfg.node_of(a_at).id, cfg.node_of(b_at).id
     except KeyError:
-        return True
-    rd = cfg.reaching()
-    return rd[na].get(pa[0]) == rd[nb].get(pa[0])
+        return "unknown", "?", "?"
+    ia, ib = _obj_id(idn, a, fn._module, cfg, na, qual), _obj_id(idn, b, fn._module, cfg, nb, qual)
+    return _cmp_ident(ia, ib), show(ia), show(ib)
 
 
 def _known():
@@ -343,6 +432,114 @@ def _unsummarised_calls(repo, fn, mi):
     return sorted(set(out))
 
 
+def _param_path(res, idn, eff, q, fn, mi, path):
+    """A written path whose root is a local of the routine (`fixed, actor = policy.embedding, policy.actor; opt.update(actor, g)`), as the
+    parameter path the identity analysis resolves the written expression to; the path itself when it is rooted at a parameter / not resolved."""
+    if path[0] in param_names(fn):
+        return path
+    found = set()
+    for kind, c, p, op in eff.sites.get(q, []):
+        if p != path:
+            continue
+        r = None
+        if kind in ("optimizer.update", "nnx.update") and c.args and _enclosing_fn(c, fn) is fn:
+            cfg = res.cfg_of(fn)
+            try:
+                i = idn.of(c.args[0], mi, cfg, cfg.node_of(c).id, q)
+            except KeyError:
+                i = None
+            attrs = []
+            while isinstance(i, tuple) and i and i[0] == "attr" and isinstance(i[2], str):
+                attrs.append(i[2])
+                i = i[1]
+            if isinstance(i, tuple) and i and i[0] == "param" and i[2] in param_names(fn):
+                r = (i[2], tuple(attrs[::-1]))
+        found.add(r)
+    return found.pop() if len(found) == 1 and None not in found else path  # every write through that local is resolved, and to the same parameter path
+
+
+def _unstarred(res, fn, call):
+    """``call`` with `*name` arguments replaced by the elements of the tuple display that is the only definition of the name reaching it."""
+    if not any(isinstance(a, ast.Starred) for a in call.args):
+        return call
+    cfg = res.cfg_of(_enclosing_fn(call, fn))
+    try:
+        at = cfg.node_of(call).id
+    except KeyError:
+        return call
+    args = []
+    for a in call.args:
+        if isinstance(a, ast.Starred) and isinstance(a.value, ast.Name):
+            ds = cfg.defs_of(at, a.value.id)
+            if len(ds) == 1 and ds[0].kind == "assign" and isinstance(ds[0].value, (ast.Tuple, ast.List)) and not any(isinstance(x, ast.Starred) for x in ds[0].value.elts):
+                rd = cfg.reaching()
+                names = {x.id for x in ast.walk(ds[0].value) if isinstance(x, ast.Name)}
+                if all(rd[at].get(nm) == cfg.reaching_out()[ds[0].node].get(nm) for nm in names):  # the elements still have the values they were packed with
+                    args += list(ds[0].value.elts)
+                    continue
+        args.append(a)
+    new = ast.copy_location(ast.Call(func=call.func, args=args, keywords=call.keywords), call)
+    new._parent = getattr(call, "_parent", None)
+    return new
+
+
+def _referenced(repo, fq) -> bool:
+    """Is the function named anywhere in the package outside its own body (called, passed on, re-exported into a table)?"""
+    own = repo.func(fq)
+    inside = {id(x) for x in ast.walk(own)}
+    for mi in repo.modules.values():
+        for x in ast.walk(mi.tree):
+            if isinstance(x, (ast.Name, ast.Attribute)) and isinstance(x.ctx, ast.Load) and id(x) not in inside and repo.resolve_expr(mi, x) == fq:
+                return True
+    return False
+
+
+def _handed_elsewhere(repo, res, eff, q, fn, mi, paths):
+    """Calls in routine ``fn`` that receive one of the module ``paths`` (the object itself, an object that contains it, a tuple / list / dict
+    display around it) although the effect analysis does not look into them: not an update it recognised, not a gradient application, not a
+    local def it scanned, not a repository function it summarised.  What such a call does to the module is unknown."""
+    denotes = {}  # local name -> path it stands for
+    for _ in range(3):
+        for st in ast.walk(fn):
+            if isinstance(st, ast.Assign) and len(st.targets) == 1 and isinstance(st.targets[0], ast.Name):
+                pth = expr_path(st.value)
+                if pth is not None:
+                    base = denotes.get(pth[0], (pth[0], ()))
+                    denotes[st.targets[0].id] = (base[0], base[1] + pth[1])
+
+    def is_it(e) -> bool:
+        if isinstance(e, ast.Starred):
+            return is_it(e.value)
+        if isinstance(e, (ast.Tuple, ast.List, ast.Set)):
+            return any(is_it(x) for x in e.elts)
+        if isinstance(e, ast.Dict):
+            return any(is_it(x) for x in e.values if x is not None)
+        pth = expr_path(e)
+        if pth is None:
+            return False
+        base = denotes.get(pth[0], (pth[0], ()))
+        full = (base[0], base[1] + pth[1])
+        return any(full[0] == r and full[1] == a[:len(full[1])] for r, a in paths)
+
+    seen = {id(s_[1]) for s_ in eff.sites.get(q, [])}
+    for site in grad_sites(repo, fn, mi):
+        seen.add(id(getattr(site["app"], "_original", site["app"])))
+    local_defs = {x.name for x in ast.walk(fn) if isinstance(x, (ast.FunctionDef, ast.AsyncFunctionDef)) and x is not fn}
+    out = []
+    for c in ast.walk(fn):
+        if not isinstance(c, ast.Call) or id(c) in seen:
+            continue
+        if not any(is_it(a) for a in list(c.args) + [k.value for k in c.keywords]):
+            continue
+        if isinstance(c.func, ast.Name) and c.func.id in local_defs:
+            continue
+        r = repo.resolve_expr(mi, c.func) if isinstance(c.func, (ast.Name, ast.Attribute)) else None
+        if r and r.startswith(repo.PKG + ".") and repo.has(r):
+            continue
+        out.append(c)
+    return out
+
+
 def run(ck, repo: Repo, tier: str):
     res = Resolver(repo)
     eff = Effects(repo, res)
@@ -353,7 +550,42 @@ def run(ck, repo: Repo, tier: str):
         # ---------------- R1 / R4 -----------------------------------------------------------------------------
         n_sites = 0
         returned = {}  # function qual -> (site, param the gradient is w.r.t.)
-        pending = []
+
+        def consumed(qual, fn, mi, gname, d, stmt, app_at, what, where, r1_key, r1_text):
+            """R4 (applied at all, on every normal path) and R1 (applied to the object it was taken with respect to) for one gradient."""
+            ups, other = _gradient_uses(res, fn, gname, stmt)
+            if not ups and other:
+                # the gradient goes somewhere the rule does not follow (returned in a tuple, transformed, handed to a helper, a loop over
+                # (optimizer, module, gradient) triples ...): neither applied nor lost as far as this analysis can tell
+                ck.incomplete.append(f"{qual}: gradient `{gname}` {what} is read by `{short(other[0], 60)}`, not by an `<optimizer>.update(<module>, {gname})` statement (unrecognised form)")
+                return
+            # no update and no other reader: the value is dead - positive evidence that the gradient is discarded
+            ck.ob("R4-does-update", qual, f"consumed:{short(d, 30)}", bool(ups), f"gradient `{gname}` {what} w.r.t. `{short(d, 30)}`",
+                  "" if ups else "the gradient is computed but never read again, so it is never applied: the trained component does not change", where)
+            if not ups:
+                return
+            for u in ups:
+                verdict, got_s, want_s = _same_obj(res, idn, fn, qual, u.args[0], u, d, app_at)
+                if verdict == "unknown":
+                    ck.incomplete.append(f"{qual}: cannot decide whether `{short(u.args[0], 40)}` in `{short(u, 60)}` ({got_s}) is the object `{short(d, 40)}` ({want_s}) "
+                                         f"the gradient `{gname}` was taken with respect to (unrecognised form)")
+                    continue
+                ok = verdict == "same"
+                ck.ob("R1-grad-update-pairing", qual, r1_key, ok, f"{r1_text} applied by `{short(u, 70)}`",
+                      "" if ok else f"the gradient was taken with respect to `{short(d, 40)}` ({want_s}) but is applied to `{short(u.args[0], 40)}` ({got_s}): a different component is changed", loc(mi, u))
+            # R4: from the gradient computation every normal path reaches one of the updates (path witness otherwise)
+            scope = _enclosing_fn(stmt, fn)
+            cfg = res.cfg_of(scope)
+            try:
+                a, upd = cfg.node_of(stmt).id, {cfg.node_of(u).id for u in ups}
+            except KeyError:
+                ck.incomplete.append(f"{qual}: the statements of gradient `{gname}` and its update are not in one control-flow graph (unrecognised form)")
+                return
+            wit = _skipping_path(cfg, a, upd)
+            ck.ob("R4-does-update", qual, f"unconditional:{short(d, 30)}", wit is None, f"`{short(ups[0], 60)}` follows its gradient on every path",
+                  "" if wit is None else "the update is skipped on some path after the gradient was computed", loc(mi, ups[0]), witness=None if wit is None else cfg.describe_path(wit))
+
+        transparent = repo.transparent_helpers()
         for qual, fn, mi in repo.all_functions():
             if "<locals>" in qual:
                 continue  # nested defs are scanned with their parent (ast.walk)
@@ -363,37 +595,37 @@ def run(ck, repo: Repo, tier: str):
                 where = loc(mi, site["app"])
                 kind, names = _grad_targets(site, stmt)
                 if kind is None:
-                    raise AnalysisError(f"{qual}: gradient application `{short(site['app'], 60)}` is consumed in an unrecognised way")
+                    ck.incomplete.append(f"{qual}: gradient application `{short(site['app'], 60)}` is consumed in an unrecognised way")
+                    continue
                 if any(d is None for d in site["diff"]):
-                    raise AnalysisError(f"{qual}: differentiated argument of `{short(site['app'], 60)}` cannot be located (starred arguments)")
+                    ck.incomplete.append(f"{qual}: differentiated argument of `{short(site['app'], 60)}` cannot be located (starred arguments)")
+                    continue
+                if kind == "return" and qual in transparent:
+                    continue  # a new helper every call of which was expanded into its caller: the site is judged there
                 if kind == "return":
                     pp = positional_params(fn)
                     d = site["diff"][0]
-                    ck.need(isinstance(d, ast.Name) and d.id in pp, f"{qual}: returned gradient w.r.t. a non-parameter (unrecognised idiom)")
+                    ck.need(len(site["diff"]) == 1 and isinstance(d, ast.Name) and d.id in pp, f"{qual}: returned gradient w.r.t. a non-parameter (unrecognised idiom)")
                     returned[qual] = (site, d.id)
                     continue
-                for gname, d in zip(names, site["diff"]):
-                    ups = _updates_using(res, fn, gname, stmt)
-                    ck.ob("R4-does-update", qual, f"consumed:{short(d, 30)}", bool(ups), f"gradient `{gname}` of `{short(site['loss'], 40)}` w.r.t. `{short(d, 30)}`",
-                          "" if ups else "the gradient is computed but never applied: the trained component does not change", where)
-                    for u in ups:
-                        ok = _same_obj(res, fn, u.args[0], u, d, site["app"])
-                        ck.ob("R1-grad-update-pairing", qual, f"{short(d, 30)}<-{short(site['loss'], 40)}", ok,
-                              f"grad wrt `{short(d, 40)}` (argnums={site['argnums']}) applied by `{short(u, 70)}`",
-                              "" if ok else f"the gradient was taken with respect to `{short(d, 40)}` but is applied to `{short(u.args[0], 40)}`: a different component is changed", loc(mi, u))
-                        # R4: update is not under a condition of its own (same control dependence as the gradient computation)
-                        try:
-                            cfg = res.cfg_of(fn) if not _in_nested(u, fn) else None
-                        except Exception:
-                            cfg = None
-                        if cfg is not None:
-                            try:
-                                a, b = cfg.node_of(site["app"]).id, cfg.node_of(u).id
-                                same = cfg.control_deps(a) == cfg.control_deps(b)
-                                ck.ob("R4-does-update", qual, f"unconditional:{short(d, 30)}", same, f"`{short(u, 60)}` follows its gradient on every path",
-                                      "" if same else "the update is skipped on some path after the gradient was computed", loc(mi, u))
-                            except KeyError:
-                                pass
+                bound_at = [stmt] * len(site["diff"])
+                if kind == "tuple-name":
+                    # the statement that unpacks the tuple of gradients (reached by this definition only) binds the element names
+                    scope_cfg = res.cfg_of(_enclosing_fn(stmt, fn))
+                    try:
+                        snode = scope_cfg.node_of(stmt).id
+                    except KeyError:
+                        snode = None
+                    unpacks = [nd for nd in scope_cfg.nodes if nd.kind == "stmt" and isinstance(nd.ast, ast.Assign) and isinstance(nd.ast.value, ast.Name) and nd.ast.value.id == names[0]
+                               and [d_.node for d_ in scope_cfg.defs_of(nd.id, names[0])] == [snode]]
+                    tg = unpacks[0].ast.targets[0] if len(unpacks) == 1 and len(unpacks[0].ast.targets) == 1 else None
+                    if not (isinstance(tg, (ast.Tuple, ast.List)) and len(tg.elts) == len(site["diff"]) and all(isinstance(x, ast.Name) for x in tg.elts)):
+                        ck.incomplete.append(f"{qual}: the tuple of gradients `{names[0]}` of `{short(site['app'], 50)}` is not unpacked by one statement into one name per differentiated argument (unrecognised form)")
+                        continue
+                    names, bound_at = [x.id for x in tg.elts], [unpacks[0].ast] * len(tg.elts)
+                for gname, d, at_ in zip(names, site["diff"], bound_at):
+                    consumed(qual, fn, mi, gname, d, at_, stmt, f"of `{short(site['loss'], 40)}`", where, f"{short(d, 30)}<-{short(site['loss'], 40)}",
+                             f"grad wrt `{short(d, 40)}` (argnums={site['argnums']})")
         ck.floor("grad-sites", n_sites, 16)
         # gradients returned to callers
         for fq, (site, pname) in sorted(returned.items()):
@@ -407,21 +639,20 @@ def run(ck, repo: Repo, tier: str):
                 cmi = cfn._module
                 fdef = repo.func(fq)
                 for n in ast.walk(cfn):
-                    if isinstance(n, ast.Assign) and isinstance(n.value, ast.Call) and isinstance(n.value.func, ast.Name) and repo.resolve_name(cmi, n.value.func.id) == fq:
+                    if isinstance(n, ast.Assign) and isinstance(n.value, ast.Call) and isinstance(n.value.func, (ast.Name, ast.Attribute)) and repo.resolve_expr(cmi, n.value.func) == fq:
                         t = n.targets[0]
-                        if not (isinstance(t, ast.Tuple) and len(t.elts) == 2 and isinstance(t.elts[1], ast.Name)):
+                        if not (len(n.targets) == 1 and isinstance(t, ast.Tuple) and len(t.elts) == 2 and isinstance(t.elts[1], ast.Name)):
                             raise AnalysisError(f"{cq}: result of {fq} unpacked in an unrecognised way")
-                        b = bind_call(fdef, n.value)
-                        d = b.get(pname)
-                        gname = t.elts[1].id
-                        ups = _updates_using(res, cfn, gname, n)
+                        call = _unstarred(res, cfn, n.value)
+                        d = bind_call(fdef, call).get(pname)
+                        if d is None or isinstance(d, list) or any(isinstance(a, ast.Starred) for a in call.args) or any(k.arg is None for k in call.keywords):
+                            raise AnalysisError(f"{cq}: the argument of {fq} that is differentiated (`{pname}`) cannot be located at `{short(n.value, 60)}` (unrecognised form)")
                         found += 1
-                        ck.ob("R4-does-update", cq, f"consumed:{short(d, 30)}", bool(ups), f"gradient `{gname}` returned by {fq.rsplit('.', 1)[1]}", "" if ups else "gradient never applied", loc(cmi, n))
-                        for u in ups:
-                            ok = d is not None and _same_obj(res, cfn, u.args[0], u, d, n)
-                            ck.ob("R1-grad-update-pairing", cq, f"{short(d, 30)}<-{fq.rsplit('.', 1)[1]}", ok,
-                                  f"{fq.rsplit('.', 1)[1]} differentiates its `{pname}` = `{short(d, 30)}`; applied by `{short(u, 60)}`",
-                                  "" if ok else f"gradient w.r.t. `{short(d, 30)}` applied to `{short(u.args[0], 30)}`", loc(cmi, u))
+                        short_fq = fq.rsplit('.', 1)[1]
+                        consumed(cq, cfn, cmi, t.elts[1].id, d, n, n, f"returned by {short_fq}", loc(cmi, n), f"{short(d, 30)}<-{short_fq}",
+                                 f"{short_fq} differentiates its `{pname}` = `{short(d, 30)}`;")
+            if found == 0 and not _referenced(repo, fq):
+                continue  # nothing in the package uses the function any more (its callers compute the gradient themselves): no gradient to follow
             ck.need(found > 0, f"{fq}: returns a gradient but no caller consumes it (anchor vanished)")
     ck.guard(_section_1)
 
@@ -439,8 +670,12 @@ def run(ck, repo: Repo, tier: str):
                 raise AnalysisError(f"{q}: signature has fewer parameters than when the trainee set was recorded (anchor vanished)")
             got = eff.summary(q)
             opts = {op for k, c, p, op in eff.sites.get(q, []) if op is not None}
-            # optimizer paths reached through callees
-            mods = {p for p in got if p not in opts and not _looks_optimizer(p, fn)}
+            # optimizers: receivers of an update in this routine, and the parameters at the positions that held the optimizers when the
+            # signature was recorded (an optimizer that is only written by a callee has no receiver here)
+            rec = SIGNATURES.get(q, ())
+            opt_params = {pp_[i] for i, nm in enumerate(rec) if "optimizer" in nm and i < len(pp_)} if len(rec) == len(pp_) else set()
+            mods = {p for p in got if p not in opts and not (p[0] in opt_params and not p[1]) and not _looks_optimizer(p, fn)}
+            mods = {_param_path(res, idn, eff, q, fn, mi, p) for p in mods}
             extra = mods - want
             missing = want - mods
             ok = not extra and not missing
@@ -457,6 +692,11 @@ def run(ck, repo: Repo, tier: str):
                 if missing and _unsummarised_calls(repo, fn, mi):
                     ck.incomplete.append(f"{q}: the documented trainee {sorted(_p(x) for x in missing)} is handed to code that is not summarised ({_unsummarised_calls(repo, fn, mi)[:2]}): cannot decide whether it is trained")
                     continue
+                handed = _handed_elsewhere(repo, res, eff, q, fn, mi, missing) if missing else []
+                if handed:
+                    # "no write found" is evidence only if the trainee goes nowhere the effect analysis does not look
+                    ck.incomplete.append(f"{q}: the documented trainee {sorted(_p(x) for x in missing)} is handed to `{short(handed[0], 60)}`, whose effect on it is not summarised: cannot decide whether it is trained (unrecognised form)")
+                    continue
                 if extra and tuple(sig_now) != tuple(SIGNATURES.get(q, sig_now)):
                     ck.incomplete.append(f"{q}: the signature changed since the trainee table was recorded; the extra write {sorted(_p(x) for x in extra)} cannot be judged")
                     continue
@@ -466,8 +706,12 @@ def run(ck, repo: Repo, tier: str):
                 why = f"does not write its documented trainee {sorted(_p(x) for x in missing)}"
             ck.ob("R2-effects", q, "effect-set", ok, f"writes {sorted(_p(x) for x in mods)} (optimizers {sorted(_p(x) for x in got - mods)})", why, loc(mi, fn))
     ck.guard(_section_2)
+
+    pair_checked = set()  # id(update call) of the direct updates in training loops whose optimizer / module pair was compared (section 4)
+
     def _section_3():
-        # a gradient-updating function that is not in the table
+        # a gradient-updating function that is not in the table: there is no documented trainee set to compare its writes with, so nothing
+        # can be concluded from the update alone (an update routine inlined into its training loop is judged pair by pair in section 4)
         transparent = repo.transparent_helpers()
         for qual, fn, mi in repo.all_functions():
             if "<locals>" in qual or qual in TRAINEES or qual in transparent:
@@ -476,9 +720,9 @@ def run(ck, repo: Repo, tier: str):
             if direct and qual not in _known():
                 ck.incomplete.append(f"{qual}: a new function applies an optimizer update and is not expanded at its call sites (cannot attribute the update)")
                 continue
-            if direct:
-                ck.ob("R2-effects", qual, "unregistered-update-routine", False, f"`{short(direct[0][1], 60)}`", "function applies an optimizer update but has no documented trainee set", loc(mi, direct[0][1]))
-    ck.guard(_section_3)
+            left = [s for s in direct if id(s[1]) not in pair_checked]
+            if left:
+                ck.incomplete.append(f"{qual}: `{short(left[0][1], 60)}` applies an optimizer update in a function that has no documented trainee set: cannot be judged (unrecognised form)")
 
     def _section_4():
         # ---------------- R2 call-site optimizer/module pairs ----------------------------------------------------------
@@ -491,30 +735,48 @@ def run(ck, repo: Repo, tier: str):
             if cq:
                 pairs.update(_created_pairs(repo, cq))
                 ck.need(pairs, f"{cq}: no nnx.Optimizer(...) found (anchor vanished)")
+            eff.summary(tq)
+            direct = {id(s_[1]) for s_ in eff.sites.get(tq, []) if s_[0] == "optimizer.update"}
             for node in cfg.nodes:
                 if node.ast is None or node.kind != "stmt":
                     continue
                 for c in ast.walk(node.ast):
                     if not isinstance(c, ast.Call):
                         continue
-                    for (opt_e, mod_e, ctx_q, ctx_fn, ctx_cfg, ctx_node, callee) in _opt_mod_at_call(repo, res, eff, tq, tfn, cfg, node.id, c):
+                    found = list(_opt_mod_at_call(repo, res, eff, tq, tfn, cfg, node.id, c))
+                    if id(c) in direct:
+                        # an update routine inlined into the loop: `<optimizer>.update(<module>, g)` establishes the pair itself
+                        found.append((c.func.value, c.args[0], tq, tfn, cfg, node.id, tq + ".<inline update>"))
+                    for (opt_e, mod_e, ctx_q, ctx_fn, ctx_cfg, ctx_node, callee) in found:
                         op = expr_path(opt_e)
                         if op is None:
                             continue
-                        oname = op[1][-1] if op[1] else op[0]
+                        # which optimizer: the parameter / field the expression denotes (aliases followed), else its spelling
+                        oid = idn.of(opt_e, ctx_fn._module, ctx_cfg, ctx_node, ctx_q)
+                        oname = oid[2] if oid[0] in ("param", "attr") and isinstance(oid[2], str) else (op[1][-1] if op[1] else op[0])
                         if oname not in pairs:
                             continue
                         n_pairs += 1
                         want_mod = pairs[oname]
                         got_id = idn.of(mod_e, ctx_fn._module, ctx_cfg, ctx_node, ctx_q)
-                        want_e = _path_expr(want_mod, tfn, pairs, oname)
+                        want_e = _path_expr(repo, want_mod, tfn, cq)
                         want_id = idn.of(want_e, tmi, cfg, node.id, tq)
-                        ok = got_id == want_id
+                        verdict = _cmp_ident(got_id, want_id)
+                        if verdict == "unknown":
+                            # an identity that is not built from parameters / clones / constructor fields (merged definitions, a call result, a
+                            # name of create_*_state that the training routine does not have) is not evidence of a mix-up
+                            ck.incomplete.append(f"{tq}: `{short(c, 50)}`: cannot decide whether the module {show(got_id)} that `{oname}` updates is `{_p(want_mod)}` = {show(want_id)}, "
+                                                 f"the one it was created for (unrecognised form)")
+                            continue
+                        if id(c) in direct:
+                            pair_checked.add(id(c))
+                        ok = verdict == "same"
                         ck.ob("R2-effects", tq, f"pair:{oname}@{callee.rsplit('.', 1)[1]}", ok, f"`{short(c, 50)}`: {oname} updates {show(got_id)}",
-                              "" if ok else f"`{oname}` was created for `{_p(want_mod)}` but is used to update {show(got_id)}: optimizer state and parameters of different components are mixed",
+                              "" if ok else f"`{oname}` was created for `{_p(want_mod)}` ({show(want_id)}) but is used to update {show(got_id)}: optimizer state and parameters of different components are mixed",
                               loc(tmi, c))
         ck.floor("optimizer-module-pairs", n_pairs, 20)
     ck.guard(_section_4)
+    ck.guard(_section_3)
 
     def _section_5():
         # ---------------- R5 returned components are distinct objects ---------------------------------------------------
@@ -538,8 +800,8 @@ def run(ck, repo: Repo, tier: str):
                             if expr_path(a) is None:
                                 continue
                             ident = idn.of(a, mi, cfg, at, qual)
-                            if ident[0] in ("global", "expr", "value", "call", "aug", "for", "unpack", "phi"):
-                                continue  # counters, buffers built elsewhere: not module identities
+                            if ident[0] in ("global", "expr", "value", "call", "aug", "for", "unpack", "phi", "deep") or _mentions(ident, ("deep", "expr")):
+                                continue  # counters, buffers built elsewhere, expressions the identity analysis does not read: not module identities
                             for leaf in idn.leaves(ident, mi, cfg, qual):
                                 for other_leaf, other_fld in list(seen.items()):
                                     if other_fld != fld and (has_base(leaf, other_leaf) or has_base(other_leaf, leaf)):
@@ -564,13 +826,27 @@ def run(ck, repo: Repo, tier: str):
             fn = repo.func(q)
             got = eff.summary(q)
             n_free += 1
-            ck.ob("R3-effect-free", q, "no-module-write", not got, f"effect set {sorted(_p(x) for x in got)}", "" if not got else f"evaluating / acting writes {sorted(_p(x) for x in got)}", loc(fn._module, fn))
+            # a write is attributable when it goes to (a part of) a parameter of the function; a local object with an `update(a, b)` method
+            # (a metrics / statistics record) is not known to be a module
+            own = set(param_names(fn))
+            attributable = {x for x in got if x[0] in own}
+            if got and not attributable:
+                ck.incomplete.append(f"{q}: `update` calls on {sorted(_p(x) for x in got)}, which are not parameters of the function: cannot decide whether a module is written (unrecognised form)")
+            else:
+                ck.ob("R3-effect-free", q, "no-module-write", not got, f"effect set {sorted(_p(x) for x in got)}", "" if not got else f"evaluating / acting writes {sorted(_p(x) for x in attributable)}", loc(fn._module, fn))
             # raw parameter stores `x.value = ...` / `x[...] = ...` on module attributes
             for n in ast.walk(fn):
-                if isinstance(n, (ast.Assign, ast.AugAssign)):
-                    tg = n.targets[0] if isinstance(n, ast.Assign) else n.target
-                    if isinstance(tg, ast.Attribute) and tg.attr == "value":
-                        ck.ob("R3-effect-free", q, "raw-value-store", False, short(n, 60), "direct store into a parameter's .value", loc(fn._module, n))
+                if isinstance(n, (ast.Assign, ast.AugAssign, ast.AnnAssign)):
+                    for tg in (n.targets if isinstance(n, ast.Assign) else [n.target]):
+                        while isinstance(tg, ast.Subscript):
+                            tg = tg.value  # `x.value[...] = v`
+                        if isinstance(tg, ast.Attribute) and tg.attr == "value":
+                            tp = expr_path(tg)
+                            scope = _enclosing_fn(n, fn)
+                            if tp is not None and tp[0] in param_names(scope) and not any(isinstance(x, ast.Name) and x.id == tp[0] and isinstance(x.ctx, ast.Store) for x in ast.walk(scope)):
+                                ck.ob("R3-effect-free", q, "raw-value-store", False, short(n, 60), "direct store into a parameter's .value", loc(fn._module, n))
+                            else:
+                                ck.incomplete.append(f"{q}: `{short(n, 60)}` stores into `.value` of an object that is not a parameter of the function: cannot decide whether a module is written (unrecognised form)")
         ck.floor("effect-free-functions", n_free, 40)
     ck.guard(_section_6)
     ck.guard(stateful_objects_in_lax_carry, ck, repo)
@@ -714,30 +990,81 @@ def _p(path):
     return ".".join((root,) + tuple(attrs))
 
 
+def _result_fields(repo, fn, mi):
+    """local variable -> field of the record a create_*_state function returns (`namedtuple(.., [fields])(a, b, ..)`, `Record(f=a, ..)`,
+    `Record(a, b)` of a NamedTuple class of the package), plus {field: value expr}; None when the return value is not read."""
+    rets = [n for n in ast.walk(fn) if isinstance(n, ast.Return) and n.value is not None and _enclosing_fn(n, fn) is fn]
+    if len(rets) != 1 or not isinstance(rets[0].value, ast.Call):
+        return None
+    call = rets[0].value
+    if any(isinstance(a, ast.Starred) for a in call.args) or any(k.arg is None for k in call.keywords):
+        return None
+    fields = None
+    if isinstance(call.func, ast.Call) and isinstance(call.func.func, (ast.Name, ast.Attribute)) and repo.resolve_expr(mi, call.func.func) == "collections.namedtuple":
+        b = {k.arg: k.value for k in call.func.keywords}
+        names = call.func.args[1] if len(call.func.args) > 1 else b.get("field_names")
+        if isinstance(names, (ast.List, ast.Tuple)) and all(isinstance(e, ast.Constant) and isinstance(e.value, str) for e in names.elts):
+            fields = [e.value for e in names.elts]
+    elif isinstance(call.func, (ast.Name, ast.Attribute)):
+        r = repo.resolve_expr(mi, call.func)
+        if r and r.startswith(repo.PKG + ".") and repo.has(r):
+            node = repo.lookup(r)[1]
+            if isinstance(node, ast.ClassDef):
+                fields = [st.target.id for st in node.body if isinstance(st, ast.AnnAssign) and isinstance(st.target, ast.Name)]
+    if fields is None or len(call.args) > len(fields):
+        return None
+    value = dict(zip(fields, call.args))
+    for k in call.keywords:
+        value[k.arg] = k.value
+    return {v.id: f for f, v in value.items() if isinstance(v, ast.Name)}, value
+
+
 def _created_pairs(repo, cq):
-    """optimizer variable -> module path from `x_optimizer = nnx.Optimizer(<module expr>, ...)` in a create_*_state function."""
+    """optimizer -> module path from `x_optimizer = nnx.Optimizer(<module expr>, ...)` in a create_*_state function.  The training routine
+    receives the fields of the returned record as parameters of the same names, so optimizer and module are named by the *field* they are
+    returned in (the local variable names of create_*_state do not matter); without a readable record the local names are used."""
     fn = repo.func(cq)
     mi = fn._module
+    rf = _result_fields(repo, fn, mi)
+    field_of = rf[0] if rf else {}
+
+    def module_of(call):
+        m = call.args[0] if call.args and not isinstance(call.args[0], ast.Starred) else next((k.value for k in call.keywords if k.arg == "model"), None)
+        p = expr_path(m) if m is not None else None
+        return (field_of.get(p[0], p[0]), p[1]) if p else None
+
+    def is_opt(v):
+        return isinstance(v, ast.Call) and isinstance(v.func, (ast.Name, ast.Attribute)) and repo.resolve_expr(mi, v.func) == "flax.nnx.Optimizer"
+
     out = {}
     for n in ast.walk(fn):
-        if isinstance(n, ast.Assign) and isinstance(n.value, ast.Call) and isinstance(n.value.func, (ast.Name, ast.Attribute)) and repo.resolve_expr(mi, n.value.func) == "flax.nnx.Optimizer":
-            if isinstance(n.targets[0], ast.Name) and n.value.args:
-                p = expr_path(n.value.args[0])
-                if p:
-                    out[n.targets[0].id] = p
-        # keyword form: EnsembleTrainState(model=model, optimizer=nnx.Optimizer(model, ...))
-        if isinstance(n, ast.keyword) and isinstance(n.value, ast.Call) and isinstance(n.value.func, (ast.Name, ast.Attribute)) and repo.resolve_expr(mi, n.value.func) == "flax.nnx.Optimizer":
-            p = expr_path(n.value.args[0]) if n.value.args else None
-            if p and n.arg:
-                out[n.arg] = p
+        if isinstance(n, ast.Assign) and is_opt(n.value) and len(n.targets) == 1 and isinstance(n.targets[0], ast.Name):
+            p = module_of(n.value)
+            if p and (not rf or n.targets[0].id in field_of):
+                out[field_of.get(n.targets[0].id, n.targets[0].id)] = p
+    # in the record itself: EnsembleTrainState(model=model, optimizer=nnx.Optimizer(model, ...))
+    for f, v in (rf[1].items() if rf else []):
+        if is_opt(v):
+            p = module_of(v)
+            if p:
+                out[f] = p
     return out
 
 
-def _path_expr(path, tfn, pairs, oname):
+def _path_expr(repo, path, tfn, cq):
+    """The module path of create_*_state as an expression of the training routine."""
     root, attrs = path
-    # PETS: the train state object holds both (`dynamics_model.model`, `dynamics_model.optimizer`)
-    if root not in param_names(tfn) and oname == "optimizer" and "dynamics_model" in param_names(tfn):
-        root, attrs = "dynamics_model", (root,) + tuple(attrs)
+    # PETS: the train state record holds both (`dynamics_model.model`, `dynamics_model.optimizer`): the path is relative to the parameter
+    # of the training routine that is annotated with the record class create_*_state returns
+    if root not in param_names(tfn) and cq:
+        cfn = repo.func(cq)
+        rets = [n for n in ast.walk(cfn) if isinstance(n, ast.Return) and isinstance(n.value, ast.Call) and isinstance(n.value.func, (ast.Name, ast.Attribute)) and _enclosing_fn(n, cfn) is cfn]
+        rec = {repo.resolve_expr(cfn._module, n.value.func) for n in rets}
+        a_ = tfn.args
+        holders = [a.arg for a in a_.posonlyargs + a_.args + a_.kwonlyargs if a.annotation is not None and isinstance(a.annotation, (ast.Name, ast.Attribute))
+                   and repo.resolve_expr(tfn._module, a.annotation) in rec and repo.resolve_expr(tfn._module, a.annotation) is not None]
+        if len(rec) == 1 and len(holders) == 1:
+            root, attrs = holders[0], (root,) + tuple(attrs)
     e = ast.Name(id=root, ctx=ast.Load())
     for a in attrs:
         e = ast.Attribute(value=e, attr=a, ctx=ast.Load())
@@ -826,6 +1153,15 @@ MUTANTS = [
      "replace": "    q_next = jax.lax.stop_gradient(q_target(next_obs_act).squeeze())\n    nnx.update(q_target, nnx.state(q))\n    q_target_value = reward + (1 - terminated) * gamma * q_next\n    return _mse_clipped_double_q_loss(q_target_value, q, action, observation)\n\n\ndef _mse"},
     {"id": "c05-sale-conditional-update", "file": "rl_blox/blox/embedding/sale.py", "rule": "R4", "find": "    embedding_optimizer.update(embedding, grads)", "replace": "    if actions.shape[0] > 1:\n        embedding_optimizer.update(embedding, grads)"},
     {"id": "c05-ensemble-updates-other", "file": "rl_blox/blox/probabilistic_ensemble.py", "rule": "R4", "find": "        optimizer.update(model, grads)\n        return (model, optimizer), loss", "replace": "        return (model, optimizer), loss"},
+    # the update is skipped by an early return (path witness; the update statement itself is under no condition)
+    {"id": "c05-sale-early-return", "file": "rl_blox/blox/embedding/sale.py", "rule": "R4", "find": "    embedding_optimizer.update(embedding, grads)", "replace": "    if actions.shape[0] <= 1:\n        return embedding_loss_value\n    embedding_optimizer.update(embedding, grads)"},
+    # the updated object is named through a local alias that denotes another part of the policy
+    {"id": "c05-td7-alias-of-other-part", "file": _A + "td7.py", "rule": "R1", "find": "    actor_optimizer.update(policy.actor, grads)", "replace": "    actor = policy.embedding\n    actor_optimizer.update(actor, grads)"},
+    # update routine inlined into the training loop, with the optimizer of the critic
+    {"id": "c05-ddpg-inlined-update-wrong-optimizer", "file": _A + "ddpg.py", "rule": "R2", "find": "                actor_loss_value = ddpg_update_actor(\n                    policy, policy_optimizer, q, batch.observation\n                )\n",
+     "replace": "                actor_loss_value, actor_grads = nnx.value_and_grad(\n                    deterministic_policy_gradient_loss, argnums=2\n                )(q, batch.observation, policy)\n                q_optimizer.update(policy, actor_grads)\n"},
+    {"id": "c05-loss-raw-value-store", "file": "rl_blox/blox/losses.py", "rule": "R3", "find": "    q_next = jax.lax.stop_gradient(q_target(next_obs_act).squeeze())\n    q_target_value = reward + (1 - terminated) * gamma * q_next\n    return _mse_clipped_double_q_loss(q_target_value, q, action, observation)\n\n\ndef _mse",
+     "replace": "    q_next = jax.lax.stop_gradient(q_target(next_obs_act).squeeze())\n    q_target.q1.scale.value = jnp.ones(())\n    q_target_value = reward + (1 - terminated) * gamma * q_next\n    return _mse_clipped_double_q_loss(q_target_value, q, action, observation)\n\n\ndef _mse"},
 ]
 BENIGN = [
     {"id": "c05-b-dqn-inline-gradfn", "file": _A + "dqn.py", "find": "    grad_fn = nnx.value_and_grad(loss, argnums=0, has_aux=True)\n    value, grad = grad_fn(q, *args, **kwargs)", "replace": "    value, grad = nnx.value_and_grad(loss, argnums=0, has_aux=True)(\n        q, *args, **kwargs\n    )"},
@@ -834,4 +1170,24 @@ BENIGN = [
     {"id": "c05-b-td3-kwargs", "file": _A + "td3.py", "find": "                    policy_loss_value = ddpg_update_actor(\n                        policy, policy_optimizer, q, batch.observation\n                    )", "replace": "                    policy_loss_value = ddpg_update_actor(\n                        policy=policy,\n                        policy_optimizer=policy_optimizer,\n                        q=q,\n                        observation=batch.observation,\n                    )"},
     {"id": "c05-b-losses-logging-dict", "file": "rl_blox/blox/losses.py", "find": "    observation, action, reward, next_observation, terminated = batch\n    next_obs_act = jnp.concatenate((next_observation, next_action), axis=-1)\n    q_next = jax.lax.stop_gradient(q_target(next_obs_act).squeeze())\n    q_target_value = reward + (1 - terminated) * gamma * q_next\n    return _mse",
      "replace": "    observation, action, reward, next_observation, terminated = batch\n    info = {}\n    info.update({\"n\": len(reward)})\n    next_obs_act = jnp.concatenate((next_observation, next_action), axis=-1)\n    q_next = jax.lax.stop_gradient(q_target(next_obs_act).squeeze())\n    q_target_value = reward + (1 - terminated) * gamma * q_next\n    return _mse"},
+    # the updated module / the gradient named through a local alias; an added check between gradient and update
+    {"id": "c05-b-td7-actor-alias", "file": _A + "td7.py", "find": "    actor_optimizer.update(policy.actor, grads)", "replace": "    actor = policy.actor\n    actor_optimizer.update(actor, grads)"},
+    {"id": "c05-b-sac-grad-alias-and-check", "file": _A + "sac.py", "find": "    policy_optimizer.update(policy, grads)\n    return loss", "replace": "    policy_grads = grads\n    if policy_grads is None:\n        raise ValueError(\"no gradient\")\n    policy_optimizer.update(policy, policy_grads)\n    return loss"},
+    # the gradient is computed in both arms of a branch, the update follows the branch
+    {"id": "c05-b-dqn-grad-in-both-arms", "file": _A + "dqn.py", "find": "    value, grad = grad_fn(q, *args, **kwargs)", "replace": "    if kwargs:\n        value, grad = grad_fn(q, *args, **kwargs)\n    else:\n        value, grad = grad_fn(q, *args)"},
+    # local variables of create_*_state renamed (the record fields, i.e. the parameters of the training routine, keep their names)
+    {"id": "c05-b-ddpg-create-state-renamed-locals", "file": _A + "ddpg.py", "edits": [
+        ("    policy = DeterministicTanhPolicy(policy_net, env.action_space)\n    policy_optimizer = nnx.Optimizer(\n        policy, optax.adam(learning_rate=policy_learning_rate), wrt=nnx.Param\n    )",
+         "    pi = DeterministicTanhPolicy(policy_net, env.action_space)\n    pi_opt = nnx.Optimizer(\n        pi, optax.adam(learning_rate=policy_learning_rate), wrt=nnx.Param\n    )"),
+        ("    )(policy, policy_optimizer, q, q_optimizer)", "    )(pi, pi_opt, q, q_optimizer)")]},
+    # argnums as a module-level constant
+    {"id": "c05-b-ddpg-argnums-constant", "file": _A + "ddpg.py", "edits": [
+        ("from .dqn import train_step_with_loss\n", "from .dqn import train_step_with_loss\n\n_POLICY_ARGNUM = 2\n"),
+        ("deterministic_policy_gradient_loss, argnums=2\n", "deterministic_policy_gradient_loss, argnums=_POLICY_ARGNUM\n")]},
+    # update routine inlined into the training loop: judged as an optimizer / module pair of the loop
+    {"id": "c05-b-ddpg-actor-update-inlined", "file": _A + "ddpg.py", "find": "                actor_loss_value = ddpg_update_actor(\n                    policy, policy_optimizer, q, batch.observation\n                )\n",
+     "replace": "                actor_loss_value, actor_grads = nnx.value_and_grad(\n                    deterministic_policy_gradient_loss, argnums=2\n                )(q, batch.observation, policy)\n                policy_optimizer.update(policy, actor_grads)\n"},
+    # loss closed over its other arguments (site read through the wrapper)
+    {"id": "c05-b-sac-lambda-loss", "file": _A + "sac.py", "find": "    loss, grads = nnx.value_and_grad(sac_actor_loss, argnums=0)(\n        policy, q, alpha, action_key, observation\n    )",
+     "replace": "    loss, grads = nnx.value_and_grad(\n        lambda p: sac_actor_loss(p, q, alpha, action_key, observation)\n    )(policy)"},
 ]
